@@ -237,11 +237,14 @@ func c10Callables() []c10Callable {
 		"And": py.And, "Or": py.Or, "Xor": py.Xor, "IAdd": py.IAdd, "ISub": py.ISub, "IMul": py.IMul, "ITrueDiv": py.ITrueDiv, "IFloorDiv": py.IFloorDiv, "IMod": py.IMod, "ILshift": py.ILshift,
 		"IRshift": py.IRshift, "IAnd": py.IAnd, "IOr": py.IOr, "IXor": py.IXor, "Lt": py.Lt, "Le": py.Le, "Gt": py.Gt, "Ge": py.Ge, "Eq": py.Eq, "Ne": py.Ne,
 		"GetItem": py.GetItem, "DelItem": py.DelItem, "GetAttr": py.GetAttr,
-		"DivMod":  func(a, b py.Object) (py.Object, error) { q, r, err := py.DivMod(a, b); return py.Tuple{q, r}, err },
-		"Contains": func(a, b py.Object) (py.Object, error) { ok, err := py.SequenceContains(a, b); return py.NewBool(ok), err },
-		"DelAttr":  func(a, b py.Object) (py.Object, error) { return py.None, py.DeleteAttr(a, b) },
-		"Pow2":     func(a, b py.Object) (py.Object, error) { return py.Pow(a, b, py.None) },
-		"IPow2":    func(a, b py.Object) (py.Object, error) { return py.IPow(a, b, py.None) },
+		"DivMod": func(a, b py.Object) (py.Object, error) { q, r, err := py.DivMod(a, b); return py.Tuple{q, r}, err },
+		"Contains": func(a, b py.Object) (py.Object, error) {
+			ok, err := py.SequenceContains(a, b)
+			return py.NewBool(ok), err
+		},
+		"DelAttr": func(a, b py.Object) (py.Object, error) { return py.None, py.DeleteAttr(a, b) },
+		"Pow2":    func(a, b py.Object) (py.Object, error) { return py.Pow(a, b, py.None) },
+		"IPow2":   func(a, b py.Object) (py.Object, error) { return py.IPow(a, b, py.None) },
 	}
 	for n, f := range bin {
 		f := f
